@@ -382,7 +382,11 @@ class Producer(object):
         # payload (topic/partition) level.
         payloads = []
         for (topic, partition), reqs in reqsByTopicPart.items():
-            if self.client._api_versions != 0:
+            # Message format 1 needs a broker known to understand it. Until
+            # version discovery has run (_api_versions is None) or when it
+            # fell back to version 0, use format 0, which every Produce
+            # request version accepts.
+            if self.client._api_versions:
                 msgSet = create_message_set(reqs, self.codec, magic=1)
             else:
                 msgSet = create_message_set(reqs, self.codec)
